@@ -6,7 +6,7 @@
 -/
 import PgProofs.SymFrame
 namespace Pg.Sym
-variable {lcs nb : Bool} {sp : Option Bool}
+variable {lcs nb : Bool} {sp : Option Bool} {sat : Bool}
 
 /-! ### where a found node lives -/
 
@@ -444,26 +444,26 @@ theorem rawSet_unal (cfg : Cfg) (hre : cfg.reindexOnMutate = true) (hcp : cfg.in
 
 /-! ### `W` through the write primitives (trees with the belief fixes) -/
 
-theorem fixed_re : (Cfg.fixedWith lcs nb sp).reindexOnMutate = true := rfl
-theorem fixed_cp : (Cfg.fixedWith lcs nb sp).insertCopiesOwn = true := rfl
+theorem fixed_re : (Cfg.fixedWith lcs nb sp sat).reindexOnMutate = true := rfl
+theorem fixed_cp : (Cfg.fixedWith lcs nb sp sat).insertCopiesOwn = true := rfl
 
 theorem rawSetList_W (f : Forest) (m : Meta) (its : Items) (key : Int) (ins : Bool) (ve : VE)
     (hw : W f) (hfind : f.find? m.id = some (.node m its)) (hk : ve.keysDistinct = true) :
-    ∀ r, rawSetList (Cfg.fixedWith lcs nb sp) f m its key ins ve = .ok r → W r.1 := by
+    ∀ r, rawSetList (Cfg.fixedWith lcs nb sp sat) f m its key ins ve = .ok r → W r.1 := by
   intro r hr
   have hal : r.1.aliased = false := (rawSetList_unal _ fixed_re fixed_cp f m its key ins ve hw hfind r hr).trans hw.unal
   exact ⟨rawSetList_ok f m its key ins ve hw.ok (Forest.find?_node_ok f hw.ok m.id m its hfind) r hr,
     rawSetList_inv _ f m its key ins ve hw.inv hfind hk r hr hal, hal⟩
 
 theorem rawSet_W (f : Forest) (t : Nat) (key : Key) (ins : Bool) (ve : VE) (hw : W f) (hk : ve.keysDistinct = true) :
-    ∀ r, rawSet (Cfg.fixedWith lcs nb sp) f t key ins ve = .ok r → W r.1 := by
+    ∀ r, rawSet (Cfg.fixedWith lcs nb sp sat) f t key ins ve = .ok r → W r.1 := by
   intro r hr
   have hal : r.1.aliased = false := (rawSet_unal _ fixed_re fixed_cp f t key ins ve hw r hr).trans hw.unal
   exact ⟨rawSet_ok f t key ins ve hw.ok r hr, rawSet_inv _ f t key ins ve hw.inv hk r hr hal, hal⟩
 
 theorem rawSetDict_W (f : Forest) (m : Meta) (its : Items) (key : Key) (ve : VE)
     (hw : W f) (hfind : f.find? m.id = some (.node m its)) (hkind : m.kind ≠ .list) (hk : ve.keysDistinct = true) :
-    ∀ r, rawSetDict (Cfg.fixedWith lcs nb sp) f m its key ve = .ok r → W r.1 := by
+    ∀ r, rawSetDict (Cfg.fixedWith lcs nb sp sat) f m its key ve = .ok r → W r.1 := by
   intro r hr
   have hal : r.1.aliased = false := (rawSetDict_unal _ f m its key ve hw hfind r hr).trans hw.unal
   exact ⟨rawSetDict_ok f m its key ve hw.ok (Forest.find?_node_ok f hw.ok m.id m its hfind) r hr,
@@ -487,7 +487,7 @@ theorem finish_unal (f : Forest) (n : Bool) (r : Except Err (Forest × Bool)) (t
 /-! ### the loops -/
 
 theorem extendLoop_W (t : Nat) : (vs : List VE) → ∀ (f : Forest) (upd : Bool), W f →
-    (∀ v ∈ vs, v.keysDistinct = true) → ∀ r, extendLoop (Cfg.fixedWith lcs nb sp) t f vs upd = .ok r → W r.1
+    (∀ v ∈ vs, v.keysDistinct = true) → ∀ r, extendLoop (Cfg.fixedWith lcs nb sp sat) t f vs upd = .ok r → W r.1
   | [], f, upd, hw, _, r, hr => by simp only [extendLoop] at hr; cases hr; exact hw
   | v :: vs, f, upd, hw, hk, r, hr => by
     simp only [extendLoop] at hr
@@ -502,7 +502,7 @@ theorem extendLoop_W (t : Nat) : (vs : List VE) → ∀ (f : Forest) (upd : Bool
 
 theorem sliceLoop_W (t : Nat) (start step : Int) : (vs : List (Bool × VE)) → ∀ (f : Forest) (i : Nat) (upd : Bool), W f →
     (∀ x ∈ vs, x.2.keysDistinct = true) →
-    ∀ r, sliceLoop (Cfg.fixedWith lcs nb sp) t start step f i vs upd = .ok r → W r.1
+    ∀ r, sliceLoop (Cfg.fixedWith lcs nb sp sat) t start step f i vs upd = .ok r → W r.1
   | [], f, i, upd, hw, _, r, hr => by simp only [sliceLoop] at hr; cases hr; exact hw
   | (ins, v) :: vs, f, i, upd, hw, hk, r, hr => by
     simp only [sliceLoop] at hr
@@ -518,7 +518,7 @@ theorem sliceLoop_W (t : Nat) (start step : Int) : (vs : List (Bool × VE)) → 
 
 theorem rebindOne_W (f : Forest) (t : Nat) (path : List Key) (ins : Bool) (v : VE) (hw : W f)
     (hk : v.keysDistinct = true) :
-    ∀ r, rebindOne (Cfg.fixedWith lcs nb sp) f t path ins v = .ok r → W r.1 := by
+    ∀ r, rebindOne (Cfg.fixedWith lcs nb sp sat) f t path ins v = .ok r → W r.1 := by
   intro r hr
   unfold rebindOne at hr
   split at hr
@@ -535,7 +535,7 @@ theorem rebindOne_W (f : Forest) (t : Nat) (path : List Key) (ins : Bool) (v : V
     · split at hr <;> cases hr
 
 theorem rebindLoop_W (t : Nat) : (pairs : List (List Key × Bool × VE)) → ∀ (f : Forest) (acc : List Nat),
-    W f → (∀ x ∈ pairs, x.2.2.keysDistinct = true) → W (rebindLoop (Cfg.fixedWith lcs nb sp) t f pairs acc).1
+    W f → (∀ x ∈ pairs, x.2.2.keysDistinct = true) → W (rebindLoop (Cfg.fixedWith lcs nb sp sat) t f pairs acc).1
   | [], f, acc, hw, _ => by simp only [rebindLoop]; exact hw
   | (p, ins, v) :: rest, f, acc, hw, hk => by
     simp only [rebindLoop]
@@ -547,7 +547,7 @@ theorem rebindLoop_W (t : Nat) : (pairs : List (List Key × Bool × VE)) → ∀
 
 theorem doRebind_unal (f : Forest) (n : Bool) (t : Nat) (m : Meta) (pairs : List (List Key × Bool × VE))
     (skip : Option Bool) (raise : Bool) (hw : W f) (hk : ∀ x ∈ pairs, x.2.2.keysDistinct = true) :
-    (doRebind (Cfg.fixedWith lcs nb sp) f n t m pairs skip raise).forest.aliased = false := by
+    (doRebind (Cfg.fixedWith lcs nb sp sat) f n t m pairs skip raise).forest.aliased = false := by
   unfold doRebind
   split; · exact hw.unal
   split; · exact hw.unal
@@ -559,9 +559,9 @@ theorem doRebind_unal (f : Forest) (n : Bool) (t : Nat) (m : Meta) (pairs : List
       split at hx
       · exact hk x (mem_sortPairsDesc pairs x hx)
       · exact hk x hx
-    have h := (rebindLoop_W (lcs := lcs) (nb := nb) (sp := sp) t
+    have h := (rebindLoop_W (lcs := lcs) (nb := nb) (sp := sp) (sat := sat) t
       (if m.kind = Kind.list then sortPairsDesc pairs else pairs) f [] hw hk').unal
-    generalize rebindLoop (Cfg.fixedWith lcs nb sp) t f (if m.kind = Kind.list then sortPairsDesc pairs else pairs) [] = x at h ⊢
+    generalize rebindLoop (Cfg.fixedWith lcs nb sp sat) t f (if m.kind = Kind.list then sortPairsDesc pairs else pairs) [] = x at h ⊢
     obtain ⟨f', targets, e⟩ := x
     cases e with
     | some e => exact h
@@ -571,22 +571,22 @@ theorem doRebind_unal (f : Forest) (n : Bool) (t : Nat) (m : Meta) (pairs : List
       · exact h
       · rw [notify_aliased]; exact h
 
-theorem noClash_of_notInPlace (f : Forest) (m : Meta) (i : Nat) (v : VE) (hin : ¬ sliceInPlace f m i v = true) :
-    TopOK f none (some m.id) false (m.path ++ [Key.i (i : Int)]) v := by
+theorem noClash_of_notInPlace (f : Forest) (m : Meta) (i : Int) (v : VE) (hin : ¬ sliceInPlace f m i v = true) :
+    TopOK f none (some m.id) false (m.path ++ [Key.i i]) v := by
   rintro rid rfl ⟨cm, cits, hc, hroot, _, hpar, hpath, _⟩
   apply hin
   simp [sliceInPlace, Forest.metaOf?, hc, Tree.meta?, hroot, hpar, hpath]
 
-theorem slicePrepare_W (m : Meta) : (vs : List VE) → ∀ (f : Forest) (i : Nat), W f →
+theorem slicePrepare_W (m : Meta) (ix : Nat → Int) : (vs : List VE) → ∀ (f : Forest) (i : Nat), W f →
     (∀ v ∈ vs, v.keysDistinct = true) →
-    W (slicePrepare (Cfg.fixedWith lcs nb sp) m f i vs).1 ∧
-      ∀ v ∈ (slicePrepare (Cfg.fixedWith lcs nb sp) m f i vs).2, v.keysDistinct = true
+    W (slicePrepare (Cfg.fixedWith lcs nb sp sat) m ix f i vs).1 ∧
+      ∀ v ∈ (slicePrepare (Cfg.fixedWith lcs nb sp sat) m ix f i vs).2, v.keysDistinct = true
   | [], f, i, hw, _ => by simp only [slicePrepare]; exact ⟨hw, by simp⟩
   | v :: vs, f, i, hw, hk => by
     simp only [slicePrepare]
-    by_cases hin : sliceInPlace f m i v = true
+    by_cases hin : sliceInPlace f m (ix i) v = true
     · rw [if_pos hin]
-      have ih := slicePrepare_W m vs f (i + 1) hw (fun x hx => hk x (by simp [hx]))
+      have ih := slicePrepare_W m ix vs f (i + 1) hw (fun x hx => hk x (by simp [hx]))
       refine ⟨ih.1, ?_⟩
       intro x hx
       simp only [List.mem_cons] at hx
@@ -594,21 +594,21 @@ theorem slicePrepare_W (m : Meta) : (vs : List VE) → ∀ (f : Forest) (i : Nat
       · exact hk _ (by simp)
       · exact ih.2 x hx
     · rw [if_neg hin]
-      have hm := evalVE_mono (Cfg.fixedWith lcs nb sp) none v f (some m.id) false m.part (m.path ++ [Key.i i])
-      have hv := evalVE_shape (Cfg.fixedWith lcs nb sp) none v f (some m.id) false m.part (m.path ++ [Key.i i])
+      have hm := evalVE_mono (Cfg.fixedWith lcs nb sp sat) none v f (some m.id) false m.part (m.path ++ [Key.i (ix i)])
+      have hv := evalVE_shape (Cfg.fixedWith lcs nb sp sat) none v f (some m.id) false m.part (m.path ++ [Key.i (ix i)])
         hw.inv.shape (hk v (by simp))
-      have hsp := evalVE_spec (Cfg.fixedWith lcs nb sp) none v f (some m.id) false m.part (m.path ++ [Key.i i]) hw.ok
-      have hun := evalVE_unal (Cfg.fixedWith lcs nb sp) none v f (some m.id) false m.part (m.path ++ [Key.i i])
-        hw.ok hw.inv.nb (noClash_of_notInPlace f m i v hin)
-      have he := fun h => evalVE_ids (Cfg.fixedWith lcs nb sp) none [] v f (some m.id) false m.part (m.path ++ [Key.i i])
+      have hsp := evalVE_spec (Cfg.fixedWith lcs nb sp sat) none v f (some m.id) false m.part (m.path ++ [Key.i (ix i)]) hw.ok
+      have hun := evalVE_unal (Cfg.fixedWith lcs nb sp sat) none v f (some m.id) false m.part (m.path ++ [Key.i (ix i)])
+        hw.ok hw.inv.nb (noClash_of_notInPlace f m (ix i) v hin)
+      have he := fun h => evalVE_ids (Cfg.fixedWith lcs nb sp sat) none [] v f (some m.id) false m.part (m.path ++ [Key.i (ix i)])
         hw.inv.nb (pendOk_none f) h
-      generalize evalVE (Cfg.fixedWith lcs nb sp) f none (some m.id) false m.part (m.path ++ [Key.i i]) v = r at hm hv hsp hun he ⊢
+      generalize evalVE (Cfg.fixedWith lcs nb sp sat) f none (some m.id) false m.part (m.path ++ [Key.i (ix i)]) v = r at hm hv hsp hun he ⊢
       obtain ⟨r1, r2⟩ := r
       have hal1 : r1.aliased = false := hun.trans hw.unal
       cases r2 with
       | leaf a =>
         simp only at hm hv hsp hun he ⊢
-        have ih := slicePrepare_W m vs r1 (i + 1) ⟨ok_of_mono hw.ok hm, ⟨hw.inv.nb.of_mono hm, hv.1⟩, hal1⟩
+        have ih := slicePrepare_W m ix vs r1 (i + 1) ⟨ok_of_mono hw.ok hm, ⟨hw.inv.nb.of_mono hm, hv.1⟩, hal1⟩
           (fun x hx => hk x (by simp [hx]))
         refine ⟨ih.1, ?_⟩
         intro x hx
@@ -637,7 +637,7 @@ theorem slicePrepare_W (m : Meta) : (vs : List VE) → ∀ (f : Forest) (i : Nat
             · exact hv.1.roots x hx
             · exact hv.2
           · exact hv.1.pool
-        have ih := slicePrepare_W m vs _ (i + 1) ⟨hok2, ⟨hnb, hsh⟩, hal1⟩ (fun x hx => hk x (by simp [hx]))
+        have ih := slicePrepare_W m ix vs _ (i + 1) ⟨hok2, ⟨hnb, hsh⟩, hal1⟩ (fun x hx => hk x (by simp [hx]))
         refine ⟨ih.1, ?_⟩
         intro x hx
         simp only [List.mem_cons] at hx
@@ -647,7 +647,7 @@ theorem slicePrepare_W (m : Meta) : (vs : List VE) → ∀ (f : Forest) (i : Nat
 
 theorem setItem_unal (f : Forest) (n : Bool) (m : Meta) (its : Items) (k : Key) (v : VE) (hw : W f)
     (hfind : f.find? m.id = some (.node m its)) :
-    (setItem (Cfg.fixedWith lcs nb sp) f n m its k v).forest.aliased = false := by
+    (setItem (Cfg.fixedWith lcs nb sp sat) f n m its k v).forest.aliased = false := by
   unfold setItem
   split; · exact hw.unal
   split; · exact hw.unal
@@ -662,7 +662,7 @@ theorem setItem_unal (f : Forest) (n : Bool) (m : Meta) (its : Items) (k : Key) 
 
 theorem delItemDict_unal (f : Forest) (n : Bool) (m : Meta) (its : Items) (k : Key) (acc : Bool) (hw : W f)
     (hfind : f.find? m.id = some (.node m its)) :
-    (delItemDict (Cfg.fixedWith lcs nb sp) f n m its k acc).forest.aliased = false := by
+    (delItemDict (Cfg.fixedWith lcs nb sp sat) f n m its k acc).forest.aliased = false := by
   unfold delItemDict
   split; · exact hw.unal
   split; · exact hw.unal
@@ -672,7 +672,7 @@ theorem delItemDict_unal (f : Forest) (n : Bool) (m : Meta) (its : Items) (k : K
 /-! ### every operation -/
 
 theorem step_unal (f : Forest) (n : Bool) (op : Op) (hw : W f) (hk : wellKeyed op = true) :
-    (step (Cfg.fixedWith lcs nb sp) f n op).forest.aliased = false := by
+    (step (Cfg.fixedWith lcs nb sp sat) f n op).forest.aliased = false := by
   have ha := hw.unal
   cases op with
   | new v =>
@@ -772,16 +772,20 @@ theorem step_unal (f : Forest) (n : Bool) (op : Op) (hw : W f) (hk : wellKeyed o
           · exact ha
           · split
             · exact ha
-            · have hp := slicePrepare_W (lcs := lcs) (nb := nb) (sp := sp) m vs f 0 hw hk
-              have run_unal : ∀ (st stp : Int) (repl : List (Bool × VE)), Keyed repl →
-                  (match sliceLoop (Cfg.fixedWith lcs nb sp) t st stp (slicePrepare (Cfg.fixedWith lcs nb sp) m f 0 vs).1 0 repl false with
-                    | .error e => (⟨(slicePrepare (Cfg.fixedWith lcs nb sp) m f 0 vs).1, .err e⟩ : Res)
+            · next start stop stp hidx =>
+              split
+              · exact ha
+              have hp := slicePrepare_W (lcs := lcs) (nb := nb) (sp := sp) (sat := sat) m
+                (sliceIx (Cfg.fixedWith lcs nb sp sat) start stp) vs f 0 hw hk
+              have run_unal : ∀ (st stq : Int) (repl : List (Bool × VE)), Keyed repl →
+                  (match sliceLoop (Cfg.fixedWith lcs nb sp sat) t st stq (slicePrepare (Cfg.fixedWith lcs nb sp sat) m (sliceIx (Cfg.fixedWith lcs nb sp sat) start stp) f 0 vs).1 0 repl false with
+                    | .error e => (⟨(slicePrepare (Cfg.fixedWith lcs nb sp sat) m (sliceIx (Cfg.fixedWith lcs nb sp sat) start stp) f 0 vs).1, .err e⟩ : Res)
                     | .ok (f', upd) => ⟨if (n && upd) = true then notify f' [m.id] else f', .ok⟩).forest.aliased = false := by
-                intro st stp repl hrepl
+                intro st stq repl hrepl
                 split
                 · exact hp.1.unal
                 · next f' upd heq =>
-                  have := (sliceLoop_W t st stp repl _ 0 false hp.1 hrepl (f', upd) heq).unal
+                  have := (sliceLoop_W t st stq repl _ 0 false hp.1 hrepl (f', upd) heq).unal
                   simp only
                   split
                   · rw [notify_aliased]; exact this
@@ -849,7 +853,7 @@ theorem step_unal (f : Forest) (n : Bool) (op : Op) (hw : W f) (hk : wellKeyed o
             · exact ha
             · split
               · exact ha
-              · have h1 : ∀ ps, (rawDelMany (Cfg.fixedWith lcs nb sp) f m its ps).aliased = false := by
+              · have h1 : ∀ ps, (rawDelMany (Cfg.fixedWith lcs nb sp sat) f m its ps).aliased = false := by
                   intro ps; unfold rawDelMany; simp only; rw [addRoots_aliased]; exact ha
                 split
                 · rw [notify_aliased]; exact h1 _
@@ -979,7 +983,7 @@ theorem step_unal (f : Forest) (n : Bool) (op : Op) (hw : W f) (hk : wellKeyed o
 /-- **no aliasing**: from a well-formed forest, a call on a tree with the belief fixes never sets
 the mark. -/
 theorem stepA_unal (f : Forest) (n : Bool) (op : Op) (hf : f.wf = true) (hk : wellKeyed op = true) :
-    (stepA (Cfg.fixedWith lcs nb sp) f n op).forest.aliased = false := by
+    (stepA (Cfg.fixedWith lcs nb sp sat) f n op).forest.aliased = false := by
   rw [wf_iff] at hf
   have hw : W f := ⟨hf.1, hf.2.1, hf.2.2.1⟩
   unfold stepA
